@@ -229,6 +229,18 @@ def poly_summary(chk, fi, c, rename):
                         (ast.unparse(n.func) == "sum" or any(k.arg == "axis" and isinstance(k.value, ast.Constant) and k.value.value == 0 for k in n.keywords))]
                 if len(sums) == 1:
                     incs = [type("Term", (), {"value": apps[0].args[0]})()]
+        if len(incs) == 1 and isinstance(incs[0], ast.AugAssign) and isinstance(incs[0].target, ast.Name):
+            # what the sum starts from: an exact zero array (0 * x, zeros) -- not something that merely simplifies to zero (0 / x is NaN at x = 0)
+            acc = incs[0].target.id
+            ini = [st for st in fi.node.body if isinstance(st, ast.Assign) and len(st.targets) == 1 and isinstance(st.targets[0], ast.Name) and
+                   st.targets[0].id == acc and st.lineno < lp.lineno]
+            if len(ini) == 1:
+                v_ = ini[0].value
+                zero_call = isinstance(v_, ast.Call) and ast.unparse(v_.func).split(".")[-1] in ("zeros", "zeros_like")
+                zero_prod = isinstance(v_, ast.BinOp) and isinstance(v_.op, ast.Mult) and any(
+                    isinstance(x_, ast.Constant) and x_.value == 0 and not isinstance(x_.value, bool) for x_ in (v_.left, v_.right))
+                zero_lit = isinstance(v_, ast.Constant) and v_.value == 0 and not isinstance(v_.value, bool)
+                out["start"] = "zero" if (zero_call or zero_prod or zero_lit) else " ".join(ast.unparse(v_).split())
         if len(incs) == 1 and coef is not None:
             ck = Normaliser(rename=ren).arg(ast.parse(coef, mode="eval").body)
             out["term"] = env.poly(incs[0].value).subst_atoms(lambda a_: "c_k" if a_ == ck else a_).canon()
@@ -293,6 +305,9 @@ def poly_rules(chk):
                inconclusive="term" not in s)
         chk.ob("R-POLY-SIB", c + "{result}", "result = values - correction", s.get("result") == "1*values + -1*y_cor", derived="%s" % s.get("result"),
                loc=fi.loc())
+        if "start" in s:
+            chk.ob("R-POLY-SIB", c + "{start}", "the correction is summed up from an exact zero array (0 * x, zeros)", s["start"] == "zero",
+                   derived="%s" % s["start"], loc=fi.loc())
     # typing: linear in the record, same length
     r = analyse(chk, "eqsig.fns.generic.remove_poly", lambda I, st, fi: dict(values=rec_array("values"), poly_fit=AV(
         kind=K_SCALAR, dtype="int", shape=(), sign=S_NONNEG, tags=frozenset(["p:poly_fit"]), sym=LinExpr("k"))))
